@@ -43,6 +43,39 @@ func fault(k shimsim.FKind, exec bool, n int) shimsim.Fault {
 // one expired certificate in memory and one in the agent so that filter has
 // removals to make), then one operation with one fault at one of its request
 // indices, then a look at what is left.
+// truncatedReplies: the underlying agent dies in the middle of its reply to a raw request - after the length prefix,
+// in the body, one byte before the end - for replies below and above 64 KiB.  Forward must report an error.
+func truncatedReplies(r *mrand.Rand, pool *shimsim.Pool) []*shimsim.Plan {
+	var out []*shimsim.Plan
+	op := func(k shimsim.OpKind, b uint64) *shimsim.Op { return &shimsim.Op{Kind: k, Blob: b} }
+	nk := len(pool.Keys)
+	id := uint64(1)
+	for _, size := range []int{10, 4096, 65536, 65537, 70000, 200000} {
+		for _, cut := range []int{1, 2, size / 2, size - 1, size} {
+			if cut < 1 {
+				continue
+			}
+			k := uint64(1 + r.Intn(nk))
+			p := &shimsim.Plan{Class: "reply-cut-short", NoUp: r.Intn(2) == 0, Data: map[uint64][]byte{1: []byte("data-1")}}
+			t, kk := shimsim.GenKeyID(r)
+			c := shimsim.CertSpec{ID: pool.ReserveID(), KeyID: k, Window: "current", KidText: t, KidKind: kk}
+			p.Certs = []shimsim.CertSpec{c}
+			p.Initial = []uint64{k}
+			body := make([]byte, 8)
+			r.Read(body)
+			body[0] |= 0x80
+			rep := make([]byte, size)
+			r.Read(rep)
+			fw := &shimsim.Op{Kind: shimsim.OpForward, RawID: id, RawBody: body, RawRep: rep,
+				Faults: map[int]shimsim.Fault{0: {Kind: shimsim.FClose, Exec: true, Partial: cut}}}
+			id++
+			p.Ops = []*shimsim.Op{op(shimsim.OpAddHard, c.ID), fw, op(shimsim.OpList, 0)}
+			out = append(out, p)
+		}
+	}
+	return out
+}
+
 func enumeration(r *mrand.Rand, pool *shimsim.Pool, full bool) []*shimsim.Plan {
 	var out []*shimsim.Plan
 	op := func(k shimsim.OpKind, b uint64) *shimsim.Op { return &shimsim.Op{Kind: k, Blob: b} }
@@ -53,15 +86,23 @@ func enumeration(r *mrand.Rand, pool *shimsim.Pool, full bool) []*shimsim.Plan {
 	targets := []target{
 		{"list", func(c, c2, e, a, k, k2 uint64) *shimsim.Op { return op(shimsim.OpList, 0) }},
 		{"signers", func(c, c2, e, a, k, k2 uint64) *shimsim.Op { return op(shimsim.OpSigners, 0) }},
-		{"sign-hardware-cert", func(c, c2, e, a, k, k2 uint64) *shimsim.Op { return &shimsim.Op{Kind: shimsim.OpSign, Blob: c, DataID: 1} }},
-		{"sign-agent-key", func(c, c2, e, a, k, k2 uint64) *shimsim.Op { return &shimsim.Op{Kind: shimsim.OpSign, Blob: k2, DataID: 2, Flags: 2} }},
-		{"sign-agent-cert", func(c, c2, e, a, k, k2 uint64) *shimsim.Op { return &shimsim.Op{Kind: shimsim.OpSign, Blob: a, DataID: 1} }},
+		{"sign-hardware-cert", func(c, c2, e, a, k, k2 uint64) *shimsim.Op {
+			return &shimsim.Op{Kind: shimsim.OpSign, Blob: c, DataID: 1}
+		}},
+		{"sign-agent-key", func(c, c2, e, a, k, k2 uint64) *shimsim.Op {
+			return &shimsim.Op{Kind: shimsim.OpSign, Blob: k2, DataID: 2, Flags: 2}
+		}},
+		{"sign-agent-cert", func(c, c2, e, a, k, k2 uint64) *shimsim.Op {
+			return &shimsim.Op{Kind: shimsim.OpSign, Blob: a, DataID: 1}
+		}},
 		{"add", func(c, c2, e, a, k, k2 uint64) *shimsim.Op { return op(shimsim.OpAdd, c2) }},
 		{"add-hardware-cert", func(c, c2, e, a, k, k2 uint64) *shimsim.Op { return op(shimsim.OpAddHard, c2) }},
 		{"remove-hardware-cert", func(c, c2, e, a, k, k2 uint64) *shimsim.Op { return op(shimsim.OpRemove, c) }},
 		{"remove-agent-key", func(c, c2, e, a, k, k2 uint64) *shimsim.Op { return op(shimsim.OpRemove, k2) }},
 		{"remove-all", func(c, c2, e, a, k, k2 uint64) *shimsim.Op { return op(shimsim.OpRemoveAll, 0) }},
-		{"lock", func(c, c2, e, a, k, k2 uint64) *shimsim.Op { return &shimsim.Op{Kind: shimsim.OpLock, Pass: []byte("pw")} }},
+		{"lock", func(c, c2, e, a, k, k2 uint64) *shimsim.Op {
+			return &shimsim.Op{Kind: shimsim.OpLock, Pass: []byte("pw")}
+		}},
 		{"forward", func(c, c2, e, a, k, k2 uint64) *shimsim.Op {
 			return &shimsim.Op{Kind: shimsim.OpForward, RawID: 1, RawBody: []byte{0x90, 1, 2, 3}, RawRep: []byte{6, 7, 8}}
 		}},
@@ -160,6 +201,7 @@ func run(c *core.Ctx) {
 	plans = append(plans, frames(pool)...)
 	plans = append(plans, construction(r, pool)...)
 	plans = append(plans, enumeration(r, pool, c.Tier == "thorough")...)
+	plans = append(plans, truncatedReplies(r, pool)...)
 	plans = append(plans, shimsim.ScenarioPlans(r, pool, c.N(16, 200))...)
 	for i, n := 0, c.N(60, 1500); i < n; i++ {
 		plans = append(plans, shimsim.GenPlan(r, pool, healthy, "healthy-agent"))
